@@ -417,6 +417,11 @@ pub fn hand_written() -> Vec<Seed> {
          fn k(s: String) -> String { s.to_uppercase() }\n\
          fn m(r: { q: List[u16] }) -> u64 { let v: List[u16] = r.q; v.len() }\n",
     );
+    // a tail expression after a statement that leaves the function: it is still an expression of
+    // the block's type (seeded change C07-7 checked it against a fresh type variable)
+    s("tail-after-exit-1", "fn f(x: u32) -> u32 { if x > 1 { return 1; 3 } else { 2 } }\n");
+    s("tail-after-exit-2", "fn g(x: u32) -> u32 { let y: u32 = { return x; 4 }; y }\n");
+    s("tail-after-exit-3", "fn k(x: u32) -> u32 { return x; 4 }\n");
     s("receiver-prefix", "fn f(p: Prefix) -> u8 { p.len() }\n");
     s("to-string", "fn f(a: u32, b: bool) -> String { a.to_string() + (a + 1).to_string() + b.to_string() }\n");
     s(
